@@ -71,6 +71,43 @@ pub fn run(env: &Env, prop: &str, tier: &str) -> i32 {
             return 2;
         }
     };
+    let mut rep = rep;
+    let mut fuzz_stats = json!(null);
+    // thorough tier of the byte-level properties: coverage-guided campaign with a fixed run budget
+    let sel = match prop {
+        "C01" => Some(0u8),
+        "C04" => Some(1),
+        "C06" => Some(2),
+        "C09" => Some(3),
+        _ => None,
+    };
+    if let (true, Some(sel)) = (tier == "thorough" || std::env::var("VERIF_FUZZ").is_ok(), sel) {
+        let runs: u64 = std::env::var("VERIF_FUZZ_RUNS").ok().and_then(|s| s.parse().ok()).unwrap_or(3_000_000);
+        let fo = crate::fuzz::run(env, &decls, runs, Some(sel));
+        if let Some(why) = fo.inconclusive {
+            eprintln!("INCONCLUSIVE: {why}");
+            return 2;
+        }
+        for v in &fo.violations {
+            if v["prop"].as_str() != Some(prop) {
+                continue;
+            }
+            rep.viols.push(vlib_report::Viol {
+                prop: prop.to_string(),
+                decl_id: v["decl_id"].as_str().unwrap_or("").to_string(),
+                type_name: String::new(),
+                decl: v["decl"].as_str().unwrap_or("").to_string(),
+                signature: v["signature"].as_str().unwrap_or("").to_string(),
+                case: v["case"].clone(),
+                expected: v["expected"].as_str().unwrap_or("").to_string(),
+                actual: v["actual"].as_str().unwrap_or("").to_string(),
+                shrunk: "libFuzzer (unminimised crash input)".into(),
+            });
+        }
+        rep.evaluations += fo.stats["number_of_executed_units"].as_u64().unwrap_or(0);
+        fuzz_stats = fo.stats;
+    }
+    rep.notes.push(format!("libfuzzer: {fuzz_stats}"));
     finish(env, prop, tier, &decls, &built, rep, t0)
 }
 
